@@ -577,18 +577,28 @@ class CompressInfo:
     positions where the mask holds.  pos: result index -> source index, rank: its inverse."""
 
     def __init__(self, eng, mask_fn, n_src, tag):
-        self.mask_fn = mask_fn
+        self._mask = mask_fn
         self.n_src = n_src
         self.n = Num(z3.Int(eng.uniq("n_" + tag)))
         self.pos = z3.Function(eng.uniq("pos_" + tag), z3.IntSort(), z3.IntSort())
         self.rank = z3.Function(eng.uniq("rank_" + tag), z3.IntSort(), z3.IntSort())
         self.seen = []
         self.i0 = z3.Int(eng.uniq("miss_" + tag))
+        self.eng = eng
         n, ns = self.n.t, to_z3(n_src)
         eng.axiom(z3.And(n >= 0, n <= ns))
         # n < n_src  <->  some position fails the mask (witness i0)
-        eng.axiom(z3.Implies(n < ns, z3.And(self.i0 >= 0, self.i0 < ns, z3.Not(zb(mask_fn(Num(self.i0)))))))
-        self.eng = eng
+        m0 = self.mask_at(Num(self.i0))
+        eng.axiom(z3.Implies(n < ns, z3.And(self.i0 >= 0, self.i0 < ns, z3.Not(m0))))
+
+    def mask_at(self, i):
+        """z3 Bool: mask at source position i, evaluated under 0 <= i < n_src (meaningless outside)"""
+        it = to_z3(i)
+        rng = z3.And(it >= 0, it < to_z3(self.n_src))
+        return self.eng.under(rng, lambda: zb(self._mask(i)))
+
+    def mask_fn(self, i):
+        return mkbool(self.mask_at(i))
 
     def at(self, k):
         """source index of result position k (adds the D6 facts for this k)"""
@@ -597,7 +607,8 @@ class CompressInfo:
         p = self.pos(kt)
         ns, n = to_z3(self.n_src), self.n.t
         inb = z3.And(kt >= 0, kt < n)
-        e.axiom(z3.Implies(inb, z3.And(p >= 0, p < ns, zb(self.mask_fn(Num(p))), self.rank(p) == kt)))
+        e.axiom(z3.Implies(inb, z3.And(p >= 0, p < ns, self.rank(p) == kt)))
+        e.axiom(z3.Implies(inb, self.mask_at(Num(p))))
         e.axiom(z3.Implies(z3.And(inb, n == ns), p == kt))
         e.axiom(z3.Implies(inb, p >= kt))
         for (k2, p2) in self.seen:
@@ -612,9 +623,9 @@ class CompressInfo:
         e = cur()
         r = self.rank(it)
         ns, n = to_z3(self.n_src), self.n.t
-        e.axiom(z3.Implies(z3.And(it >= 0, it < ns, zb(self.mask_fn(Num(it)))),
-                            z3.And(r >= 0, r < n, self.pos(r) == it)))
-        e.axiom(z3.Implies(z3.And(it >= 0, it < ns, zb(self.mask_fn(Num(it))), n == ns), r == it))
+        sel = z3.And(it >= 0, it < ns, self.mask_at(i))
+        e.axiom(z3.Implies(sel, z3.And(r >= 0, r < n, self.pos(r) == it)))
+        e.axiom(z3.Implies(z3.And(sel, n == ns), r == it))
         return Num(r)
 
 
